@@ -597,6 +597,41 @@ def mech_nonempty_vec(site):
     return "first element of a vector that was built with at least one element and is never shrunk before" if grown else None
 
 
+def mech_len_minus_one(site):
+    """`v.len() - 1` on a path where `v.ends_with(<non-empty literal>)` / `!v.is_empty()` is known for the same buffer: len >= 1"""
+    if site.kind != "overflow" or not site.detail.startswith("Sub usize,usize"):
+        return None
+    ops = site.extra.get("ops") or []
+    if len(ops) != 2 or ops[1].get("k") != "const" or ops[1].get("int") != 1 or ops[0].get("k") not in ("copy", "move"):
+        return None
+    fn = site.fn
+    lens = [o.call for o in F.origins(fn, ops[0], depth=6, through_calls=False)
+            if o.kind == "call" and re.search(r"^alloc::(vec::Vec|string::String)::len$|slice::<impl \[T\]>::len$|^core::str::<impl str>::len$", short(o.call.name))]
+    if len(lens) != 1 or not lens[0].args:
+        return None
+    def ident(op):
+        return (tuple(sorted(x for x in F.provenance_fields(fn, op, depth=10) if isinstance(x, str))), frozenset(_leaf_ids(fn, op)))
+    buf = ident(lens[0].args[0])
+    for g in _dominating_guards(site):
+        if g["kind"] != "bool":
+            continue
+        for o in g["origins"]:
+            if o.kind != "call" or not o.call.args:
+                continue
+            n = short(o.call.name)
+            same = ident(o.call.args[0]) == buf and buf[1]
+            if not same:
+                continue
+            if re.search(r"::ends_with$|::starts_with$", n) and g["edge"] == "true" and len(o.call.args) > 1:
+                needle = o.call.args[1]
+                txt = json.dumps(needle) + "".join(json.dumps(x.const) for x in F.origins(fn, needle, depth=4) if x.kind == "const" and x.const)
+                if re.search(r'b?\\"[^\\"]+\\"|"int": \d+|\\\\n', txt) or needle.get("k") == "const":
+                    return "len() - 1 under ends_with(<non-empty>) on the same buffer (len >= 1)"
+            if re.search(r"::is_empty$", n) and g["edge"] == "false":
+                return "len() - 1 under !is_empty() on the same buffer"
+    return None
+
+
 def mech_lengths(site):
     if site.kind == "cast" and site.stmt is not None:
         rv = site.stmt["rv"]
@@ -1046,7 +1081,7 @@ def run_inventory(R, rid, root_name, desc, restrict=None):
     for key in sorted(by_key):
         ss = by_key[key]
         for idx, s in enumerate(sorted(ss, key=lambda s: (s.file, s.line))):
-            how = mech_const_divisor(s) or mech_counter(s) or mech_const_ctor(s) or mech_lengths(s) or mech_const_clamp(s) or mech_position_index(s) or mech_range_index(s) or mech_nonempty_vec(s) or mech_guarded_sub(s) or mech_full_range(s) or mech_excluded_variant(s) or mech_widened(s) or mech_total_consumers(s) or mech_bounded_capacity(s) or mech_balanced_counter(s)
+            how = mech_const_divisor(s) or mech_counter(s) or mech_const_ctor(s) or mech_lengths(s) or mech_const_clamp(s) or mech_position_index(s) or mech_range_index(s) or mech_nonempty_vec(s) or mech_guarded_sub(s) or mech_len_minus_one(s) or mech_full_range(s) or mech_excluded_variant(s) or mech_widened(s) or mech_total_consumers(s) or mech_bounded_capacity(s) or mech_balanced_counter(s)
             if how:
                 R.ok(rid, key, "mechanical: " + how, s.loc(), nontrivial=False)
                 continue
